@@ -2531,6 +2531,15 @@ def replay_fmt_links(fd, vals, info):
     return {"harness": "m_fmt_links", "values": [le_bytes(int(vals.get("width", 0)), 8), [1 if vals.get("wrap_links") else 0]] + _replay_pieces(vals)}
 
 
+def spec_wrap_hard_wrap_deep(ctx, make_exe):
+    total = 0
+    for (lens, frag) in (([3], False), ([3, 2], False), ([2, 1, 2], True)):
+        f, exe, m, ref, pieces, allchars, outs = _run_hard_wrap(ctx, make_exe, lens, frag, 1 << 20)
+        total += len(outs)
+        _hard_wrap_posts(ctx, f, exe, m, ref, pieces, allchars, outs, "hard wrap %s" % (lens,))
+    return {"function": f.name, "paths": total}
+
+
 def replay_hard_wrap(fd, vals, info):
     g = lambda k: int(vals.get("s." + k, 0))
     v = [le_bytes(g("width"), 8), le_bytes(g("line_len"), 8), [1 if vals.get("s.allow_overflow") else 0]]
@@ -3019,6 +3028,450 @@ def spec_columns_join(ctx, make_exe):
             _columns_posts(exe, f, outs, shapes, prev_kind, collapse_v, ws, draw, "columns %s%s" % ("|".join(shapes), " collapsing" if collapse_v else ""))
     return {"function": f.name, "paths": total, "scenarios": 2 * len(scen)}
 
+# ----------------------------------------------------------------------------
+# SPEC: building the render tree only reads the DOM (a parsed document can be rendered again)
+# ----------------------------------------------------------------------------
+
+def spec_dom_text_readonly(ctx, make_exe):
+    f = the(ctx.find(r"^process_dom_node$"), "process_dom_node")
+    ctx.enums.setdefault("NodeData", ["Document", "Doctype", "Text", "Comment", "Element", "ProcessingInstruction"])
+    import summaries
+    orig = summaries.summarize
+    total = 0
+    for kind in ("Text", "Comment", "Doctype"):
+        exe = make_exe(inline=[r"RenderNode::new$"], loop_bound=6)
+        if kind == "Text":
+            data = VAgg("NodeData::Text", "Text", [VOpaque("RefCell<Tendril>", "text_cell")])
+        elif kind == "Comment":
+            data = VAgg("NodeData::Comment", "Comment", [VOpaque("Tendril", "comment")])
+        else:
+            data = VAgg("NodeData::Doctype", "Doctype", [VOpaque("Tendril", "n"), VOpaque("Tendril", "p"), VOpaque("Tendril", "s")])
+        node = VAgg("Node", None, [VOpaque("Cell", "parent"), VOpaque("RefCell", "children"), data])
+        inp = _agg(ctx, "RenderInput", handle=VOpaque("Rc<Node>", "handle"))
+
+        def summ(exe_, st_, f_, bb_, callee, args, dest_ty):
+            c = callee.strip()
+            if re.search(r"^<Rc<Node> as Clone>::clone$", c):
+                return [(st_, VOpaque("Rc<Node>", "handle_clone"))]
+            if re.search(r"^<Rc<Node> as Deref>::deref$", c):
+                return [(st_, VRef("val", node))]
+            if re.search(r"^RefCell::<Tendril<UTF8>>::borrow$", c):
+                return [(st_, VOpaque("Ref<Tendril>", "text_borrow"))]
+            if re.search(r"^<Ref<'_, Tendril<UTF8>> as Deref>::deref$", c):
+                return [(st_, VRef("val", VOpaque("Tendril", "text_tendril")))]
+            if re.search(r"as std::convert::Into<String>>::into$", c):
+                v = args[0]
+                while isinstance(v, VRef):
+                    v = exe_.deref(st_, v)
+                return [(st_, VOpaque("String", "string_of:" + getattr(v, "name", "?")))]
+            return orig(exe_, st_, f_, bb_, callee, args, dest_ty)
+        summaries.summarize = summ
+        try:
+            outs = exe.run(f.name, {1: inp, 2: VOpaque("&mut T", "err_out"), 3: VOpaque("&mut HtmlContext", "context")}, State())
+        finally:
+            summaries.summarize = orig
+        total += len(outs)
+        if not outs:
+            raise Inconclusive("no path returned for a %s node" % kind)
+        for (s2, ret) in outs:
+            calls = [c[0] for c in s2.calls if c[2] == f.name]
+            mutators = [c for c in calls if re.search(r"(RefCell|Cell)::<.*>::(take|replace|replace_with|swap|borrow_mut|set|get_mut|into_inner|try_borrow_mut)$", c)
+                        or re.search(r"std::mem::(take|replace|swap)::<", c)]
+            post(exe, s2, z3.BoolVal(not mutators), f.name, "%s node: the DOM is only read while the render tree is built (mutating calls: %s)" % (kind, mutators))
+            ok = isinstance(ret, VAgg) and ret.variant == "Ok"
+            post(exe, s2, z3.BoolVal(ok), f.name, "%s node: conversion succeeds" % kind)
+            if ok and kind == "Text":
+                tm = ret.fields[0]
+                fin = isinstance(tm, VAgg) and tm.variant == "Finished"
+                name = None
+                if fin:
+                    rn = tm.fields[0]
+                    info = rn.fields[rn.names.index("info")] if isinstance(rn, VAgg) and rn.names else None
+                    if isinstance(info, VAgg) and info.variant == "Text":
+                        name = getattr(info.fields[0], "name", None)
+                post(exe, s2, z3.BoolVal(name == "string_of:text_tendril"), f.name, "Text node: becomes a text render node holding a copy of the node's text (got %s)" % name)
+            if ok and kind != "Text":
+                tm = ret.fields[0]
+                post(exe, s2, z3.BoolVal(isinstance(tm, VAgg) and tm.variant == "Nothing"), f.name, "%s node: contributes nothing" % kind)
+    return {"function": f.name, "paths": total}
+
+# ----------------------------------------------------------------------------
+# SPEC: where an element's declarations come from (StyleData::computed_style): rules in origin order with their own
+# importance; attributes only when document CSS is enabled, as inline author declarations with their own importance
+# ----------------------------------------------------------------------------
+
+def spec_computed_style_sources(ctx, make_exe):
+    f = the(ctx.find(r"::computed_style$", debug=["self", "parent_style", "handle"]), "StyleData::computed_style")
+    ctx.enums.setdefault("NodeData", ["Document", "Doctype", "Text", "Comment", "Element", "ProcessingInstruction"])
+    imp_names = ctx.enums.get("Importance")
+    org_names = ctx.enums.get("StyleOrigin")
+    if not imp_names or not org_names:
+        raise Inconclusive("enums Importance / StyleOrigin not recovered")
+    import summaries
+    orig = summaries.summarize
+    total = 0
+    ATTRS = ["style", "color", "bgcolor", "class"]
+    for n_attrs in (0, 1, 2):
+        exe = make_exe(inline=[r"<Importance as PartialEq>::eq$", r"<css::Importance as PartialEq>::eq$"], loop_bound=10)
+        st = State()
+        use_doc = exe.fresh("bool", "use_doc_css")
+
+        def rule(tag):
+            decl = _agg(ctx, "StyleDecl", style=VOpaque("Style", "style:" + tag), importance=VOpaque("Importance", "imp:" + tag))
+            return _agg(ctx, "Ruleset", selector=VOpaque("Selector", "sel:" + tag), styles=VVec([decl]))
+        sd = _agg(ctx, "StyleData", agent_rules=VVec([rule("agent")]), user_rules=VVec([rule("user")]), author_rules=VVec([rule("author")]))
+        matches = {t: exe.fresh("bool", "matches:" + t) for t in ("agent", "user", "author")}
+        kinds = [exe.fresh("u8", "attr%d.name" % k) for k in range(n_attrs)]
+        for kv in kinds:
+            st.pc.append(z3.ULT(kv.e, len(ATTRS)))
+        if n_attrs == 2:
+            st.pc.append(kinds[0].e != kinds[1].e)      # the parser keeps one attribute per name
+        attrs = VVec([VAgg("Attribute", None, [VAgg("QualName", None, [VOpaque("Option<Prefix>", "pfx"), VOpaque("Namespace", "ns"), VOpaque("Atom", "attrname%d" % k)]),
+                                                VOpaque("Tendril", "attrvalue%d" % k)]) for k in range(n_attrs)])
+        node = VAgg("Node", None, [VOpaque("Cell", "parent"), VOpaque("RefCell", "children"),
+                                   VAgg("NodeData::Element", "Element", [VOpaque("QualName", "elname"), VOpaque("RefCell<Vec<Attribute>>", "attrcell"),
+                                                                         VOpaque("RefCell", "tc"), VOpaque("bool", "mx")])])
+        parse_ok = exe.fresh("bool", "colour_parses")
+
+        def nm(exe_, st_, v):
+            while isinstance(v, VRef):
+                v = exe_.deref(st_, v)
+            return getattr(v, "name", None) or ""
+
+        def lit(exe_, st_, v):
+            n_ = nm(exe_, st_, v)
+            m_ = re.search(r'"([a-z]+)"', n_)
+            return m_.group(1) if m_ else None
+
+        def summ(exe_, st_, f_, bb_, callee, args, dest_ty):
+            c = callee.strip()
+            if re.search(r"ComputedStyle::inherit$", c):
+                return [(st_, VOpaque("ComputedStyle", "result"))]
+            if re.search(r"Selector::matches$", c):
+                return [(st_, matches[nm(exe_, st_, args[0])[4:]])]
+            if re.search(r"Selector::specificity$", c):
+                return [(st_, VOpaque("Specificity", "spec:" + nm(exe_, st_, args[0])[4:]))]
+            if re.search(r"Specificity::inline$", c):
+                return [(st_, VOpaque("Specificity", "spec:inline"))]
+            if re.search(r"Option::<PseudoElement>::as_ref$", c):
+                return [(st_, VOpaque("Option<&PseudoElement>", "pseudo"))]
+            if re.search(r"StyleData::merge_computed_style$", c):
+                return [(st_, VUnit())]
+            if re.search(r"^<Rc<Node> as Deref>::deref$", c):
+                return [(st_, VRef("val", node))]
+            if re.search(r"^RefCell::<Vec<Attribute>>::borrow$", c):
+                return [(st_, VRef("val", attrs))]
+            if re.search(r"^<Ref<'_, Vec<Attribute>> as Deref>::deref$", c):
+                return [(st_, args[0])]
+            if re.search(r"Atom<LocalNameStaticSet> as PartialEq<&str>>::eq$", c) or re.search(r"^<&str as PartialEq>::eq$", c):
+                a_, b_ = nm(exe_, st_, args[0]), lit(exe_, st_, args[1])
+                m_ = re.match(r"(?:deref:)?attrname(\d+)$", a_)
+                if m_ and b_ in ATTRS:
+                    return [(st_, VBool(kinds[int(m_.group(1))].e == ATTRS.index(b_)))]
+                return None
+            if re.search(r"Atom<LocalNameStaticSet> as Deref>::deref$", c):
+                return [(st_, VRef("val", VOpaque("str", "deref:" + nm(exe_, st_, args[0]))))]
+            if re.search(r"^<Tendril<UTF8> as Deref>::deref$", c):
+                return [(st_, VRef("val", VOpaque("str", "value:" + nm(exe_, st_, args[0]))))]
+            if re.search(r"^parse_style_attribute$", c):
+                k = nm(exe_, st_, args[0])[-1]
+                decl = _agg(ctx, "StyleDecl", style=VOpaque("Style", "style:inline" + k), importance=VOpaque("Importance", "imp:inline" + k))
+                return [(st_, VAgg("Result::Ok", "Ok", [VVec([decl])]))]
+            if re.search(r"Result::<Vec<StyleDecl>, .*>::unwrap_or_default$", c):
+                v = args[0]
+                return [(st_, v.fields[0] if isinstance(v, VAgg) and v.variant == "Ok" else VVec([]))]
+            if re.search(r"parse_color_attribute$", c):
+                ok = st_.clone()
+                ok.pc.append(parse_ok.e)
+                bad = st_.clone()
+                bad.pc.append(z3.Not(parse_ok.e))
+                return [(ok, VAgg("Result::Ok", "Ok", [VOpaque("parser::Colour", "colour")])), (bad, VAgg("Result::Err", "Err", [VOpaque("Error", "e")]))]
+            if re.search(r"as std::convert::Into<Colour>>::into$", c):
+                return [(st_, VOpaque("Colour", "colour2"))]
+            return orig(exe_, st_, f_, bb_, callee, args, dest_ty)
+        summaries.summarize = summ
+        try:
+            outs = exe.run(f.name, {1: VRef("val", sd), 2: VRef("val", VOpaque("ComputedStyle", "parent")),
+                                    3: VRef("val", VOpaque("Rc<Node>", "handle")), 4: use_doc}, st)
+        finally:
+            summaries.summarize = orig
+        total += len(outs)
+        if not outs:
+            raise Inconclusive("no path returned")
+        i_imp = ctx.field("StyleDecl", "importance")
+        for (s2, ret) in outs:
+            merges = [c for c in s2.calls if re.search(r"StyleData::merge_computed_style$", c[0]) and c[2] == f.name]
+            seen_attr = False
+            rule_tags = []
+            for mc in merges:
+                a = mc[1]
+                important, origin, spec, decl = a[1], a[2], a[3], a[5]
+                d = decl
+                while isinstance(d, VRef):
+                    d = exe.deref(s2, d)
+                sname = getattr(spec, "name", "")
+                dimp = d.fields[i_imp] if isinstance(d, VAgg) and d.names else None
+                own_important = None
+                if isinstance(dimp, VOpaque):
+                    own_important = exe.discriminant(dimp).e == imp_names.index("Important")
+                elif isinstance(dimp, VAgg) and dimp.variant:
+                    own_important = z3.BoolVal(dimp.variant == "Important")
+                if sname == "spec:inline":
+                    seen_attr = True
+                    post(exe, s2, use_doc.e, f.name, "attributes of the document style an element only when document CSS is enabled")
+                    post(exe, s2, z3.BoolVal(isinstance(origin, VAgg) and origin.variant == "Author"), f.name, "attribute declarations are author declarations")
+                    if own_important is not None and isinstance(important, VBool):
+                        post(exe, s2, important.e == own_important, f.name, "a style attribute's declaration keeps its own importance (!important)")
+                else:
+                    tag = sname[5:]
+                    rule_tags.append(tag)
+                    post(exe, s2, z3.BoolVal(not seen_attr), f.name, "selector rules are applied before the element's own attributes")
+                    post(exe, s2, matches[tag].e if tag in matches else z3.BoolVal(False), f.name, "only rules whose selector matches are applied")
+                    want_origin = {"agent": "Agent", "user": "User", "author": "Author"}.get(tag)
+                    post(exe, s2, z3.BoolVal(isinstance(origin, VAgg) and origin.variant == want_origin), f.name, "a rule is applied with the origin of its sheet (%s)" % tag)
+                    if own_important is not None and isinstance(important, VBool):
+                        post(exe, s2, important.e == own_important, f.name, "a rule's declaration keeps its own importance")
+            post(exe, s2, z3.BoolVal(rule_tags == [t for t in ("agent", "user", "author") if t in rule_tags]), f.name, "sheets are applied in the order agent, user, author (got %s)" % rule_tags)
+            for t in ("agent", "user", "author"):
+                post(exe, s2, matches[t].e == z3.BoolVal(t in rule_tags), f.name, "every matching rule is applied (%s)" % t)
+            # a style attribute is applied whenever document CSS is on
+            for k in range(n_attrs):
+                applied = any(getattr(mc[1][5], "name", None) is None and _decl_style_name(exe, s2, mc[1][5]) == "style:inline%d" % k for mc in merges)
+                post(exe, s2, z3.And(use_doc.e, kinds[k].e == 0) == z3.BoolVal(bool(applied)), f.name, "a style attribute is applied exactly when document CSS is enabled")
+    return {"function": f.name, "paths": total}
+
+
+def _decl_style_name(exe, s2, d):
+    while isinstance(d, VRef):
+        d = exe.deref(s2, d)
+    if isinstance(d, VAgg) and d.names and "style" in d.names:
+        return getattr(d.fields[d.names.index("style")], "name", None)
+    return None
+
+# ----------------------------------------------------------------------------
+# SPEC: ordered-list markers are laid out by their display width (estimate, render arm, per-item closure)
+# ----------------------------------------------------------------------------
+
+def spec_ol_marker_columns(ctx, make_exe):
+    import wrapmodel
+    import summaries
+    orig = summaries.summarize
+    est = the(ctx.find(r"^calc_ol_prefix_size$", debug=["start", "num_items", "max_number"]), "calc_ol_prefix_size")
+    ren = the(ctx.find(r"^do_render_node$", debug=["start", "num_items", "max_number", "prefixn"]), "do_render_node (Ol arm)")
+    post_cl = the([g for g in ctx.find(r"^do_render_node::\{closure#\d+\}$") if "prefixn" in g.debug and "i" in g.debug and "prefix_width" in g.debug],
+                  "the per-item closure of the Ol arm")
+
+    def layer(exe, markers, extra=None):
+        """string contracts: a marker is a string with independent byte length and display width"""
+        def sval(exe_, st_, v):
+            while isinstance(v, VRef):
+                v = exe_.deref(st_, v)
+            return v
+
+        def summ(exe_, st_, f_, bb_, callee, args, dest_ty):
+            c = callee.strip()
+            if extra is not None:
+                r = extra(exe_, st_, f_, bb_, c, args)
+                if r is not None:
+                    return r
+            if re.search(r"::ordered_item_prefix$", c):
+                k = len(markers)
+                w = exe_.fresh("usize", "marker%d.width" % k)
+                nb = exe_.fresh("usize", "marker%d.bytes" % k)
+                st_.pc += [z3.ULE(w.e, u64(1 << 20)), z3.ULE(nb.e, u64(1 << 22)), z3.ULE(w.e, nb.e * 2)]
+                markers.append((args[1], w, nb))
+                return [(st_, wrapmodel.str_model(w, nb))]
+            if re.search(r"^String::len$", c) or re.search(r"core::str::<impl str>::len$", c):
+                v = sval(exe_, st_, args[0])
+                if isinstance(v, VAgg) and v.path == "StrModel":
+                    return [(st_, v.fields[1])]
+                return None
+            if re.search(r"UnicodeWidthStr>::width$", c):
+                v = sval(exe_, st_, args[0])
+                if isinstance(v, VAgg) and v.path == "StrModel":
+                    return [(st_, v.fields[0])]
+                return None
+            if re.search(r"^String::as_str$", c) or re.search(r"^<String as Deref>::deref$", c):
+                v = sval(exe_, st_, args[0])
+                if isinstance(v, VAgg) and v.path == "StrModel":
+                    return [(st_, VRef("val", v))]
+                return None
+            if re.search(r"std::str::<impl str>::repeat$", c):
+                return [(st_, wrapmodel.str_model(args[1], args[1]))]
+            if re.search(r"^String::push_str$", c):
+                a = sval(exe_, st_, args[0])
+                b = sval(exe_, st_, args[1])
+                if all(isinstance(x, VAgg) and x.path == "StrModel" for x in (a, b)):
+                    exe_.write_ref(st_, args[0], [], wrapmodel.str_model(VInt(a.fields[0].e + b.fields[0].e, 64, False), VInt(a.fields[1].e + b.fields[1].e, 64, False)), None)
+                    return [(st_, VUnit())]
+                return None
+            if re.search(r"^(format|must_use::<String>)$", c):
+                v = args[0] if args else None
+                if c.startswith("must_use") and isinstance(v, VAgg) and v.path == "StrModel":
+                    return [(st_, v)]
+                # formatting machinery is not modelled: the result is some string
+                w = exe_.fresh("usize", exe_.fresh_name("formatted.width"))
+                nb = exe_.fresh("usize", exe_.fresh_name("formatted.bytes"))
+                return [(st_, wrapmodel.str_model(w, nb))]
+            return orig(exe_, st_, f_, bb_, callee, args, dest_ty)
+        return summ
+
+    def umax(a, b):
+        return z3.If(z3.UGE(a, b), a, b)
+    total = 0
+    # A. the size estimate
+    exe = make_exe(loop_bound=4)
+    markers = []
+    summaries.summarize = layer(exe, markers)
+    st0 = State()
+    items0 = exe.fresh("usize", "num_items")
+    st0.pc.append(z3.ULE(items0.e, u64(1 << 32)))      # a list's items fit in memory (the overflow side is ol_numbering's subject)
+    try:
+        outs = exe.run(est.name, {1: exe.fresh("i64", "start"), 2: items0, 3: VRef("val", VOpaque("D", "decorator"))}, st0)
+    finally:
+        summaries.summarize = orig
+    total += len(outs)
+    n_ok = 0
+    for (s2, ret) in outs:
+        if isinstance(ret, VInt) and len(markers) == 2:
+            n_ok += 1
+            post(exe, s2, ret.e == umax(markers[0][1].e, markers[1][1].e), est.name,
+                 "estimate: the marker column is as wide as the wider of the first and last marker, in display columns")
+    if not n_ok:
+        raise Inconclusive("calc_ol_prefix_size: result not recovered")
+    # B. the render arm: common width and the indentation of later lines
+    exe = make_exe(loop_bound=4)
+    markers = []
+    st = State()
+    start = exe.fresh("i64", "start")
+    items = exe.fresh("usize", "num_items")
+    st.pc += [z3.ULE(items.e, u64(1 << 32)), z3.UGE(items.e, u64(1))]
+    sl = int(ren.debug["start"][1:])
+    nl = int(ren.debug["num_items"][1:])
+    pn = int(ren.debug["prefixn"][1:])
+    entry = None
+    for name in ren.order:
+        raw = " ".join(ren.blocks[name].raw)
+        if re.search(r"_%d as i64 \(IntToInt\)" % nl, raw) and not ren.blocks[name].cleanup:
+            entry = name
+            break
+    stop = set(n_ for n_ in ren.order if re.search(r"Cell::<i64>::new\(", " ".join(ren.blocks[n_].raw)))
+    if entry is None or not stop:
+        raise Inconclusive("Ol arm of do_render_node not located")
+    pw_local = None
+    for name in ren.order:
+        t = ren.blocks[name].term
+        if t and t[0] == "call" and "std::cmp::max::<usize>" in t[2] and t[1] is not None:
+            # the one fed by prefix_width_min / prefix_width_max
+            if ("_%s" % ren.debug.get("prefix_width_min", "_x")[1:]) in " ".join(ren.blocks[name].raw):
+                pw_local = t[1].local
+    if pw_local is None:
+        raise Inconclusive("prefix_width of the Ol arm not located")
+    summaries.summarize = layer(exe, markers)
+    try:
+        outs = exe.run(ren.name, {1: VRef("val", VOpaque("TextRenderer<D>", "renderer"))}, st, entry=entry,
+                       env_overrides={sl: start, nl: items}, stop_at=stop)
+    finally:
+        summaries.summarize = orig
+    total += len(outs)
+    n_ok = 0
+    for (s2, ret) in outs:
+        if isinstance(ret, tuple) and ret[0] == "stopped" and len(markers) == 2:
+            fr = s2.frames[ret[2]]
+            pw = fr.get(pw_local)
+            pnv = fr.get(pn)
+            if isinstance(pw, VInt):
+                n_ok += 1
+                post(exe, s2, pw.e == umax(markers[0][1].e, markers[1][1].e), ren.name,
+                     "render: the marker column is as wide as the wider of the first and last marker, in display columns")
+                if isinstance(pnv, VAgg) and pnv.path == "StrModel":
+                    post(exe, s2, pnv.fields[0].e == pw.e, ren.name, "render: later lines of an item are indented by the marker column's width")
+                else:
+                    raise Inconclusive("indentation string of the Ol arm not recovered")
+    if not n_ok:
+        raise Inconclusive("Ol arm: marker width not computed on any path")
+    # C. per item: the number, its padding, and the counter
+    exe = make_exe(loop_bound=4)
+    markers = []
+    st = State()
+    pw = exe.fresh("usize", "prefix_width")
+    cur = exe.fresh("i64", "counter")
+    st.pc += [z3.ULE(pw.e, u64(1 << 20))]
+    caps = {}
+    for name, place in post_cl.debug.items():
+        m_ = re.match(r"\(\(\*_1\)\.(\d+): (.*)\)$", place)
+        if m_:
+            caps[int(m_.group(1))] = name
+    fields = []
+    for k in range(max(caps) + 1):
+        nm_ = caps.get(k)
+        fields.append({"i": VAgg("Cell", None, [cur]), "prefix_width": pw, "prefixn": wrapmodel.str_model(pw, pw)}.get(nm_, VOpaque("?", "cap%d" % k)))
+    env = VAgg("closure", None, fields)
+    exe.cell_n += 1
+    cid = "cell%d" % exe.cell_n
+    exe.global_cells[cid] = env
+    events = []
+
+    def extra(exe_, st_, f_, bb_, c, args):
+        if re.search(r"TextRenderer::<D>::pop$", c):
+            return [(st_, VOpaque("SubRenderer<D>", "sub"))]
+        if re.search(r"^once::<&str>$", c):
+            v = args[0]
+            while isinstance(v, VRef):
+                v = exe_.deref(st_, v)
+            return [(st_, VAgg("Once", None, [v]))]
+        if re.search(r"^std::iter::repeat::<&str>$", c):
+            v = args[0]
+            while isinstance(v, VRef):
+                v = exe_.deref(st_, v)
+            return [(st_, VAgg("Repeat", None, [v]))]
+        if re.search(r"as Iterator>::chain::<", c):
+            return [(st_, VAgg("Chain", None, [args[0], args[1]]))]
+        if re.search(r"as Renderer>::append_subrender::<", c):
+            return [(st_, VAgg("Result::Ok", "Ok", [VUnit()]))]
+        if re.search(r"^Cell::<i64>::get$", c):
+            v = exe_.deref(st_, args[0])
+            return [(st_, v.fields[0])]
+        if re.search(r"^Cell::<i64>::set$", c):
+            exe_.write_ref(st_, args[0], [], VAgg("Cell", None, [args[1]]), None)
+            return [(st_, VUnit())]
+        return None
+    summaries.summarize = layer(exe, markers, extra)
+    try:
+        outs = exe.run(post_cl.name, {1: VRef("cell", cid), 2: VRef("val", VOpaque("TextRenderer<D>", "renderer")), 3: VRef("val", VOpaque("Option", "node"))}, st)
+    finally:
+        summaries.summarize = orig
+    total += len(outs)
+    if not outs:
+        raise Inconclusive("per-item closure: no path returned")
+    for (s2, ret) in outs:
+        post(exe, s2, z3.BoolVal(len(markers) == 1), post_cl.name, "per item: one marker is produced")
+        if len(markers) != 1:
+            continue
+        num, w1, nb1 = markers[0]
+        post(exe, s2, num.e == cur.e, post_cl.name, "per item: the marker shows the current number")
+        sets = [c for c in s2.calls if re.search(r"^Cell::<i64>::set$", c[0]) and c[2] == post_cl.name]
+        apps = [c for c in s2.calls if re.search(r"as Renderer>::append_subrender::<", c[0]) and c[2] == post_cl.name]
+        post(exe, s2, z3.BoolVal(len(apps) == 1 and len(sets) == 1), post_cl.name, "per item: the item is appended once and the number advances once")
+        if len(sets) == 1:
+            nxt = sets[0][1][1]
+            sat = z3.If(cur.e == z3.BitVecVal((1 << 63) - 1, 64), cur.e, cur.e + 1)
+            post(exe, s2, nxt.e == sat, post_cl.name, "per item: the next number is the current one plus one")
+        if len(apps) == 1:
+            ch = apps[0][1][2]
+            ok = isinstance(ch, VAgg) and ch.path == "Chain" and isinstance(ch.fields[0], VAgg) and ch.fields[0].path == "Once" \
+                and isinstance(ch.fields[1], VAgg) and ch.fields[1].path == "Repeat"
+            post(exe, s2, z3.BoolVal(bool(ok)), post_cl.name, "per item: the marker goes on the first line, the indentation on every later line")
+            if ok:
+                first = ch.fields[0].fields[0]
+                later = ch.fields[1].fields[0]
+                if not (isinstance(first, VAgg) and first.path == "StrModel" and isinstance(later, VAgg) and later.path == "StrModel"):
+                    raise Inconclusive("marker strings not recovered")
+                post(exe, s2, z3.Implies(z3.ULE(w1.e, pw.e), first.fields[0].e == pw.e), post_cl.name,
+                     "per item: the padded marker fills exactly the marker column (display width)")
+                post(exe, s2, later.fields[0].e == pw.e, post_cl.name, "per item: later lines are indented by the marker column's width")
+    return {"functions": [est.name, ren.name, post_cl.name], "paths": total}
+
 
 ALL = [
     Spec("table_col_width", ["C06", "C02", "C01"], spec_table_col_width,
@@ -3178,6 +3631,28 @@ ALL = [
          bounds="2-3 columns of 0-3 lines each (text lines and border lines), widths 1..2^20",
          assumptions=["TaggedLine / BorderHoriz operations are contracts (decided on the real code by the t3_* and t4_* Kani harnesses)"],
          replay=lambda fd, vals, info: {"harness": "m_columns", "values": [[0]]}),
+    Spec("wrap_hard_wrap_deep", ["C02", "C04", "C03", "C01"], spec_wrap_hard_wrap_deep, tier="thorough",
+         functions=["WrappedBlock::flush_word_hard_wrap", "WrappedBlock::force_flush_line"],
+         bounds="word of 1-3 pieces of 1-3 characters (5 characters in all) from {a, e-acute, a wide CJK character, a combining mark}, optional fragment markers; any block width <= 2^20, any line position",
+         assumptions=["as wrap_hard_wrap"], replay=replay_hard_wrap),
+    Spec("dom_text_readonly", ["C10", "C03"], spec_dom_text_readonly,
+         functions=["process_dom_node (text, comment and doctype arms)", "RenderNode::new"],
+         bounds="one DOM node of each leaf kind",
+         assumptions=["Rc / RefCell / Tendril operations are observed by name; the element arm is covered by dom_constructors"],
+         replay=lambda fd, vals, info: {"harness": "m_dom_reuse", "values": [[0]]}),
+    Spec("computed_style_sources", ["C19", "C18"], spec_computed_style_sources,
+         functions=["StyleData::computed_style"],
+         bounds="one rule per sheet (agent, user, author) with one declaration, 0-2 attributes named style / color / bgcolor / other; matching, importance and the document-CSS switch symbolic",
+         assumptions=["Selector::matches is an arbitrary boolean per rule; merge_computed_style is observed, not executed (its cascade is decided by r1_cascade_*)",
+                      "DOM accessors (Rc, RefCell, Atom comparison, Tendril) follow their std / html5ever contracts; attribute names of an element are distinct"],
+         replay=lambda fd, vals, info: {"harness": ("m_display_none" if "only when document CSS" in fd.msg or "exactly when document CSS" in fd.msg
+                                                    else "m_inline_important"), "values": [[0]]}),
+    Spec("ol_marker_columns", ["C16", "C07", "C02"], spec_ol_marker_columns,
+         functions=["calc_ol_prefix_size", "do_render_node (Ol arm: marker column)", "do_render_node (Ol arm: per-item closure)"],
+         bounds="any start and item count; a marker is a string whose byte length and display width are independent symbolic values",
+         assumptions=["strings are (display width, byte length) pairs; format! is not modelled (its result is an arbitrary string)",
+                      "every item's marker is at most as wide as the marker column (r4_ol_prefix_is_max decides that for decimal markers)"],
+         replay=lambda fd, vals, info: {"harness": "m_ol_prefix_width", "values": [[2]]}),
     Spec("link_footnotes", ["C08"], spec_link_footnotes,
          functions=["TextRenderer::start_link", "TextRenderer::end_link"],
          bounds="0-2 links already recorded; footnote flag symbolic",
